@@ -38,6 +38,11 @@ VLayout(ev) ==
             /\ MemberSet(ev.probe[j].members) = MemberSet(ev.obs[i].members)
        THEN "bad:recorded-layout-differs-from-compiler"
   ELSE IF \E n \in ToSet(ev.reach) : ~\E i \in 1..Len(ev.obs) : ev.obs[i].name = n THEN "bad:reachable-aggregate-not-recorded"
+  \* every definition that is reachable in its own translation unit is recorded with ITS layout (same-named types of other units do not stand in for it)
+  ELSE IF \E j \in 1..Len(ev.probe) : ev.probe[j].reach /\ ~\E i \in 1..Len(ev.obs) :
+            /\ ev.probe[j].name = ev.obs[i].name /\ ev.probe[j].size * 8 = ev.obs[i].sizeBits
+            /\ MemberSet(ev.probe[j].members) = MemberSet(ev.obs[i].members)
+       THEN "bad:reachable-definition-not-recorded-with-its-own-layout"
   ELSE "ok"
 
 Verdict(ev) == CASE ev.e = "Signature" -> VSignature(ev) [] ev.e = "Layout" -> VLayout(ev) [] OTHER -> "bad:unknown-event"
